@@ -36,6 +36,7 @@ pub enum FK {
     UnionReorder,
     UnionMismatch,
     NumberOutOfRange,
+    QuerySpelling,
     ByteFlip,
     // parameters
     ParamDrop,
@@ -74,6 +75,7 @@ impl FK {
             FK::UnionReorder => "union_reorder",
             FK::UnionMismatch => "union_mismatch",
             FK::NumberOutOfRange => "number_out_of_range",
+            FK::QuerySpelling => "query_spelling",
             FK::ByteFlip => "byte_flip",
             FK::ParamDrop => "param_drop",
             FK::ParamDup => "param_dup",
@@ -98,6 +100,7 @@ impl FK {
                 | FK::ShortWrite
                 | FK::Retry
                 | FK::UnionReorder
+                | FK::QuerySpelling
         )
     }
 }
@@ -221,6 +224,7 @@ fn fault_counter(k: FK) -> &'static str {
         FK::UnionReorder => "fault.union_reorder_fired",
         FK::UnionMismatch => "fault.union_mismatch_fired",
         FK::NumberOutOfRange => "fault.number_out_of_range_fired",
+        FK::QuerySpelling => "fault.query_spelling_fired",
         FK::ByteFlip => "fault.byte_flip_fired",
         FK::ParamDrop => "fault.param_drop_fired",
         FK::ParamDup => "fault.param_dup_fired",
@@ -1083,6 +1087,36 @@ fn param_faults(ctx: &Ctx, plan: &mut CallPlan, ep: &EpMeta, wire: &mut WireReq,
                     fire(ctx, plan, fired, FK::ParamOpaque, format!("header {}", a.name), reject(&a.name));
                 }
             }
+        }
+    }
+    // another client's spelling of the same query: characters a query component may carry
+    // literally (RFC 3986 sub-delims, ':', '@', '/', '?') left unescaped. Only '&', '=', '+', '%'
+    // and '#' mean something to an application/x-www-form-urlencoded parser.
+    if !query.is_empty() && plan.want(ctx, FK::QuerySpelling) {
+        let mut changed = 0;
+        for (_, v) in query.iter_mut() {
+            let mut out = String::with_capacity(v.len());
+            let mut rest = v.as_str();
+            while let Some(p) = rest.find('%') {
+                out.push_str(&rest[..p]);
+                let hex = rest.get(p + 1..p + 3).and_then(|h| u8::from_str_radix(h, 16).ok());
+                match hex {
+                    Some(c) if b";:@/?!$'()*,".contains(&c) => {
+                        out.push(c as char);
+                        changed += 1;
+                        rest = &rest[p + 3..];
+                    }
+                    _ => {
+                        out.push('%');
+                        rest = &rest[p + 1..];
+                    }
+                }
+            }
+            out.push_str(rest);
+            *v = out;
+        }
+        if changed > 0 {
+            fire(ctx, plan, fired, FK::QuerySpelling, format!("{} characters left unescaped", changed), Expect::Transparent);
         }
     }
     wire.uri = join_uri(&segs.join("/"), &query);
